@@ -401,7 +401,29 @@ class DataFlow(object):
         if self._facts_in is None:
             self._solve_facts()
         r = self._facts_in.get(node)
-        return r if r is not None else frozenset()
+        r = r if r is not None else frozenset()
+        return self._close(r)
+
+    def _close(self, facts):
+        """Unit propagation over the conjunctions known to be false: not (A and B) together with A gives not B
+        (and not (A or B) was already split into not A, not B by test_facts)."""
+        if not any(f[0][0] == "expr" and f[1] is False for f in facts):
+            return facts
+        out = set(facts)
+        changed = True
+        while changed:
+            changed = False
+            for f in list(out):
+                if f[0][0] == "expr" and f[1] is False and f[0][1] in _CONJ:
+                    parts = _CONJ[f[0][1]]
+                    unknown = [p for p in parts if not p <= out]
+                    if len(unknown) == 1 and len(unknown[0]) == 1:
+                        atom = next(iter(unknown[0]))
+                        neg = (atom[0], not atom[1], atom[2])
+                        if neg not in out:
+                            out.add(neg)
+                            changed = True
+        return frozenset(out)
 
     def edge_facts(self, node, label):
         """Facts established by taking edge `label` out of test node."""
@@ -479,6 +501,9 @@ def _fact(kind, operands, pol, exprs):
     return ((kind,) + tuple(operands), pol, frozenset(vs))
 
 
+_CONJ = {}      # key of a conjunction -> the fact sets of its conjuncts (for unit propagation when the conjunction is false)
+
+
 def test_facts(e, pol):
     """Set of atomic facts implied by `e` having truth value `pol`."""
     e = unawait(e)
@@ -492,6 +517,8 @@ def test_facts(e, pol):
             return out
         if len(e.values) == 1:
             return test_facts(e.values[0], pol)
+        if isinstance(e.op, ast.And) and not pol:
+            _CONJ[key(e)] = [frozenset(test_facts(v, True)) for v in e.values]
         return {_fact("expr", [key(e)], pol, [e])}
     if isinstance(e, ast.Compare) and len(e.ops) == 1:
         a, b, op = e.left, e.comparators[0], e.ops[0]
